@@ -146,6 +146,7 @@ CHECKS["C04"] = {
         {"variant": "plain", "engine": "stress", "procs": 3, "rounds_quick": 4000, "rounds_thorough": 80000},
         {"variant": "plain", "engine": "stress", "tso": 1, "procs": 2, "rounds_quick": 3000, "rounds_thorough": 60000},
         {"variant": "asan", "engine": "stress", "procs": 2, "rounds_quick": 2000, "rounds_thorough": 40000},
+        {"variant": "plain", "engine": "off", "mode": "allocfault", "procs": 1, "rounds": 1},
         {"variant": "asan", "engine": "serial", "procs": 2, "rounds_quick": 2000, "rounds_thorough": 40000},
         {"variant": "tsan", "engine": "stress", "procs": 2, "rounds_quick": 1500, "rounds_thorough": 30000},
     ],
